@@ -83,8 +83,12 @@ TwoOwners(prefix, tree, loc, glo) ==
   LET vis == AVisible(loc, glo) IN
   \E i \in DOMAIN tree :
      \/ Cardinality(Deleters(prefix, vis, tree[i].row)) > 1
-     \/ (~Competing(prefix, vis, tree[i].row) /\ Matches(prefix, vis, tree[i].row) # {}
-         /\ TwoOwners(prefix, tree[i].kids, MergedKids(vis, Matches(prefix, vis, tree[i].row)), InheritDown(loc, glo)))
+     \* below a row the check goes on with the united children rules whenever EVERY match that may govern the row is a local rule matched
+     \* directly (whichever of them governs, the row passes and hands down the children of all of them)
+     \/ (LET ms == Matches(prefix, vis, tree[i].row) IN
+         /\ ms # {}
+         /\ \A m \in Sel(prefix, vis, ms) : m[2] = "direct" /\ ~vis[m[1]].glob
+         /\ TwoOwners(prefix, tree[i].kids, MergedKids(vis, ms), InheritDown(loc, glo)))
 RECURSIVE MaybeTwoOwners(_, _, _, _)      \* under the union of all children rules: if not even here, certainly no conflict
 MaybeTwoOwners(prefix, tree, loc, glo) ==
   LET vis == AVisible(loc, glo) IN
